@@ -555,10 +555,12 @@ def _eval_count_guard(test, n, names_var):
                   ast.LtE: lambda a, b: a <= b, ast.Gt: lambda a, b: a > b, ast.GtE: lambda a, b: a >= b}.get(op)
             if fn is not None:
                 return fn(n, r.value)
-        if isinstance(test.ops[0], ast.In) and isinstance(r, (ast.List, ast.Tuple)):
+        if isinstance(test.ops[0], (ast.In, ast.NotIn)) and isinstance(r, (ast.List, ast.Tuple)):
             vals = [e.value for e in r.elts if isinstance(e, ast.Constant)]
             if '' in vals or None in vals:
-                return n == 0    # the empty / None species string
+                return (n == 0) == isinstance(test.ops[0], ast.In)    # the empty / None species string
+    if isinstance(test, ast.UnaryOp) and isinstance(test.op, ast.Not):
+        return not _eval_count_guard(test.operand, n, names_var)
     raise AnalysisError('mass-action dispatch guard not understood: %s' % src(test))
 
 
